@@ -44,7 +44,7 @@ theorem verify_lossless_top_level {s r : Cfg} {ck : Kvs} (h : verify s (.node ck
 example : verify (.node [("data_config", .node [("p", cstr "???")]), ("sleap_nn_version", cstr "0.0.1")])
     (.node [("data_config", .node [("p", cstr "x")]), ("sleap_nn_version", cstr "0.0.0-other")])
     = .ok (.node [("data_config", .node [("p", cstr "x")]), ("sleap_nn_version", cstr "0.0.0-other")]) := by
-  simp [verify, hasKey, lookup, topFill, merge, mergeKvs, hasMissing, hasMissingKvs, cstr]
+  simp [verify, hasKey, lookup, topFill, merge, mergeKvs, hasMissing, hasMissingKvs, Value.missing, cstr]
 
 /-- normalisation is idempotent: the normal form is a fixed point -/
 theorem verify_idempotent {s c r : Cfg} (hs : wf s = true) (hc : wf c = true)
@@ -81,7 +81,7 @@ theorem verify_complete_fixed_point {sk ck : Kvs} (hk : keys ck = keys sk) (hc :
 example : verify (.node [("data_config", .node [("p", cstr "???")]), ("name", cstr "")])
     (.node [("data_config", .node [("p", cstr "x")])])
     = .ok (.node [("data_config", .node [("p", cstr "x")]), ("name", cstr "")]) := by
-  simp [verify, hasKey, lookup, topFill, merge, mergeKvs, hasMissing, hasMissingKvs, cstr]
+  simp [verify, hasKey, lookup, topFill, merge, mergeKvs, hasMissing, hasMissingKvs, Value.missing, cstr]
 
 /-! ## attrs constructors -/
 
@@ -323,10 +323,13 @@ theorem intensity_named_enabled (kvs : Kvs) (l : List IntName) (n : IntName) (hn
 example : (geoLoop ⟨fl 15, pair d09 d11, fl d02, fl d02, fl 0, fl 0, fl 0⟩ [.scale, .rotation]).rotation = fl 15 := by
   simp [geoLoop, geoPre, geoStep, GeoName.isAffine]
 
-/-! ### the loop as it is in /repo -/
+/-! ### REGRESSION RECORDS: the loop as it was in /repo before ba6346f (F-C20, fixed)
+
+The next two theorems are about `geoLoopAsIs`, which is no longer the code; they are kept (and
+counted) as the machine-checked record of the defect and of where it could not bite. -/
 
 /-- The full statement (`∀ l l', l ~ l' → same result, every named augmentation enabled`) is
-**false** of the code as it is: `["rotation","scale"]` and `["scale","rotation"]` differ, and in
+**false** of the code as it was before the fix: `["rotation","scale"]` and `["scale","rotation"]` differ, and in
 both rotation is named yet ends at 0 (F-C20). -/
 theorem aug_order_counterexample :
     let g : Geo := ⟨fl 15, pair d09 d11, fl d02, fl d02, fl 0, fl 0, fl 0⟩
@@ -342,7 +345,7 @@ theorem aug_order_counterexample :
   exact absurd hs.1 (by decide)
 
 
-/-- … and it is **true** of the code as it is exactly where the defect cannot bite: when the list
+/-- … and it was **true** of the old code exactly where the defect could not bite: when the list
 names at most one *distinct* affine augmentation, the as-is loop and the repaired loop agree (so
 order is irrelevant and every named augmentation is enabled there too). -/
 theorem aug_asIs_partial (g : Geo) (l : List GeoName)
@@ -386,8 +389,8 @@ example : presetOf "swint_small" = .ok ("swint", "SwinTConfig", "SwinTSmallConfi
 example : presetOf "swint_base" = .ok ("swint", "SwinTConfig", "SwinTBaseConfig") := by
   simp [presetOf, assoc, swintPresets]
 
-/-- … which is **false** of the classes as they are in /repo (`UNetMediumRFConfig` etc. are
-unrelated to `UNetConfig`): with the identity subclass relation the documented preset
+/-- REGRESSION RECORD (F-C20b, fixed by c183280) … which was **false** of the classes as they were in
+/repo (`UNetMediumRFConfig` etc. were unrelated to `UNetConfig`): with the identity subclass relation the documented preset
 `"unet_medium_rf"` is refused when the configuration is assembled (F-C20b). -/
 theorem preset_counterexample (cls : String → Cfg) :
     backboneStructured ⟨cls, fun a b => a = b⟩ (cstr "unet_medium_rf") = .error "ValidationError" := by
@@ -557,7 +560,13 @@ theorem runHistory_outputs_aux (env : Env) (steps : List Step) : ∀ s : HState,
     | call c => simp [hstep, callsOf]
     | mutate i t => simp [hstep, callsOf]
 
-/-- **the result of a builder call depends on nothing but its arguments**: in any history of
+/-- NO PROOF CONTENT BEYOND THE DEFINITIONS: `hstep … (.call c)` never reads `handed`, so this is the
+statement "the model's builders are functions", by a two-line induction.  It is listed because it
+is the *obligation* the history correspondence discharges on the implementation (each call of a
+history is compared with the single-call model output); the evidence is the harness run, not this
+proof.
+
+**the result of a builder call depends on nothing but its arguments**: in any history of
 calls interleaved with arbitrary in-place mutations of objects handed out earlier, the k-th call
 returns what the same call returns on a fresh state.  (Trivial in the model — it is a pure
 function — and exactly the obligation the correspondence then checks on the implementation:
@@ -571,5 +580,240 @@ example (env : Env) (t : Cfg) :
     (runHistory env [.call (.backbone (cstr "unet")), .mutate 0 t, .call (.backbone (cstr "unet"))]).outputs
       = [runCall env (.backbone (cstr "unet")), runCall env (.backbone (cstr "unet"))] := by
   rw [builders_history_independent]; rfl
+
+/-! ## audit follow-up: the returned TREE, dict forms, nested completeness, non-vacuity -/
+
+/-- **every named geometric augmentation is enabled in the configuration that is RETURNED**
+(`Geo.write` puts each field under its own key — `lookup_write` — and touches nothing else).
+Note "rotation enabled" = the class default rotation `g.rotation` is kept and `affine_p = 1`; if a
+schema declared a default rotation of 0 that is what a named rotation would get (as in the code). -/
+theorem aug_named_enabled_tree {env : Env} {kvs : Kvs} {g : Geo} {l : List String} {ns : List GeoName}
+    (hr : Geo.read kvs = some g) (hp : parseAll GeoName.parse l = some ns) (hne : ns.isEmpty = false) :
+    ∃ rk, augGeometric .fixed env (.node kvs) (.names l) = .ok (.node rk) ∧ keys rk = keys kvs ∧
+      (∀ k, k ∉ geoKeys → lookup k rk = lookup k kvs) ∧
+      (GeoName.rotation ∈ ns → lookup "rotation" rk = some g.rotation ∧ lookup "affine_p" rk = some (fl 1)) ∧
+      (GeoName.scale ∈ ns → lookup "scale" rk = some (pair d09 d11) ∧ lookup "affine_p" rk = some (fl 1)) ∧
+      (GeoName.translate ∈ ns → lookup "translate_width" rk = some (fl d02) ∧
+        lookup "translate_height" rk = some (fl d02) ∧ lookup "affine_p" rk = some (fl 1)) ∧
+      (GeoName.eraseScale ∈ ns → lookup "erase_p" rk = some (fl 1)) ∧
+      (GeoName.mixup ∈ ns → lookup "mixup_p" rk = some (fl 1)) := by
+  refine ⟨(geoLoop g ns).write kvs, ?_, keys_write _ _, fun k hk => lookup_write_other _ _ hk, ?_⟩
+  · simp only [augGeometric, hp, hne, hr]; rfl
+  · obtain ⟨w1, w2, w3, w4, w5, w6, w7⟩ := lookup_write (geoLoop g ns) hr
+    obtain ⟨e1, e2, e3, e4, e5, _, _⟩ := aug_named_enabled g ns
+    rw [w1, w2, w3, w4, w5, w6, w7]
+    refine ⟨fun h => ?_, fun h => ?_, fun h => ?_, fun h => ?_, fun h => ?_⟩
+    · rw [(e1 h).1, (e1 h).2]; exact ⟨rfl, rfl⟩
+    · rw [(e2 h).1, (e2 h).2]; exact ⟨rfl, rfl⟩
+    · rw [(e3 h).1, (e3 h).2.1, (e3 h).2.2]; exact ⟨rfl, rfl, rfl⟩
+    · rw [e4 h]
+    · rw [e5 h]
+
+/-- `get_aug_config` stores what `augGeometric` / `augIntensity` return under `geometric` / `intensity` -/
+theorem getAugConfig_parts {v : Variant} {env : Env} {ia ga r : Cfg} (h : getAugConfig v env ia ga = .ok r) :
+    ∃ akvs i g, env.cls "AugmentationConfig" = .node akvs ∧
+      augIntensity env ((lookup "intensity" akvs).getD cnull) (AugArg.ofCfg ia) = .ok i ∧
+      augGeometric v env ((lookup "geometric" akvs).getD cnull) (AugArg.ofCfg ga) = .ok g ∧
+      (hasKey "geometric" akvs = true → getPath ["geometric"] r = some g) ∧
+      (hasKey "intensity" akvs = true → getPath ["intensity"] r = some i) := by
+  unfold getAugConfig at h
+  split at h
+  · rename_i akvs hcls
+    split at h
+    · cases h
+    · rename_i i hi
+      split at h
+      · cases h
+      · rename_i g hg
+        simp only [Except.ok.injEq] at h
+        subst h
+        refine ⟨akvs, i, g, hcls, hi, hg, fun hk => ?_, fun hk => ?_⟩
+        · rw [getPath_single]
+          exact lookup_setKey_self (by rw [hasKey_setKey]; exact hk)
+        · rw [getPath_single, lookup_setKey_ne _ _ (by decide)]
+          exact lookup_setKey_self hk
+  · cases h
+
+/-- dict forms of the augmentation arguments are plain constructor calls: `construct_places`,
+`construct_defaults`, `construct_complete` and `validators_reject` apply to them as they are -/
+theorem aug_dict_is_constructor (v : Variant) (env : Env) (dflt : Cfg) (kw : Kvs) :
+    augIntensity env dflt (.dict kw) = mk env "IntensityConfig" kw ∧
+    augGeometric v env dflt (.dict kw) = mk env "GeometricConfig" kw := ⟨rfl, rfl⟩
+
+theorem getPath_setField {c : Cfg} {kvs : Kvs} (hc : c = .node kvs) {k : String} (hk : hasKey k kvs = true)
+    (t : Cfg) : getPath [k] (setField c k t) = some t := by
+  subst hc; simp only [setField]; rw [getPath_single]; exact lookup_setKey_self hk
+
+/-- what a successfully constructed sub-configuration looks like, wherever it is stored -/
+def Reflects (env : Env) (cls : String) (kw : Kvs) (t : Cfg) : Prop :=
+  (∀ kv ∈ kw, getPath [kv.1] t = some kv.2) ∧
+  (∀ k, k ∉ keys kw → getPath [k] t = getPath [k] (env.cls cls)) ∧
+  ∃ dk tk, env.cls cls = .node dk ∧ t = .node tk ∧ keys tk = keys dk
+
+theorem mk_reflects {env : Env} {cls : String} {kw : Kvs} {t : Cfg} (h : mk env cls kw = .ok t)
+    (hnd : (keys kw).Nodup) : Reflects env cls kw t :=
+  ⟨fun kv hm => mk_get h hnd (k := kv.1) (v := kv.2) hm, fun _ hk => mk_other h hk, mk_keys h⟩
+
+/-- **dict-form backbone**: the family the code selects (`unet`, else `convnext`, else `swint`) holds
+every supplied keyword unmodified, the class default everywhere else, and the class's key set -/
+theorem backbone_dict_places {env : Env} {bbk d : Kvs} {field cls : String} {r : Cfg}
+    (hb : env.cls "BackboneConfig" = .node bbk) (hk : hasKey field bbk = true)
+    (h : backbonePick env (env.cls "BackboneConfig") d field cls = .ok r) :
+    ∃ kw t, lookup field d = some (.node kw) ∧ getPath [field] r = some t ∧
+      ((keys kw).Nodup → Reflects env cls kw t) := by
+  unfold backbonePick at h
+  cases hl : lookup field d with
+  | none => rw [hl] at h; simp [kwargsOf, cnull] at h
+  | some sub =>
+    rw [hl] at h
+    cases sub with
+    | leaf v => simp [kwargsOf] at h
+    | node kw =>
+      simp only [Option.getD_some, kwargsOf] at h
+      cases hm : mk env cls kw with
+      | error e => rw [hm] at h; cases h
+      | ok t =>
+        rw [hm] at h
+        simp only [Except.ok.injEq] at h
+        subst h
+        exact ⟨kw, t, rfl, getPath_setField hb hk t, fun hnd => mk_reflects hm hnd⟩
+
+/-- which family `get_backbone_config` picks from a dict -/
+theorem backbone_dict_selects (env : Env) (d : Kvs) :
+    getBackboneConfig env (.node d) =
+      if hasKey "unet" d then backbonePick env (env.cls "BackboneConfig") d "unet" "UNetConfig"
+      else if hasKey "convnext" d then backbonePick env (env.cls "BackboneConfig") d "convnext" "ConvNextConfig"
+      else if hasKey "swint" d then backbonePick env (env.cls "BackboneConfig") d "swint" "SwinTConfig"
+      else .ok (env.cls "BackboneConfig") := rfl
+
+/-- **dict-form scheduler**: the first non-`None` known key is built from its keywords -/
+theorem scheduler_dict_places {env : Env} {lk kvs kw : Kvs} {k : String} {r : Cfg}
+    (hl : env.cls "LRSchedulerConfig" = .node lk) (hk : hasKey k lk = true)
+    (hf : firstScheduler kvs = some (k, .node kw)) (h : lrScheduler env (.node kvs) = .ok r) :
+    ∃ t, getPath [k] r = some t ∧
+      ((keys kw).Nodup →
+        Reflects env (if k = "step_lr" then "StepLRConfig" else "ReduceLROnPlateauConfig") kw t) := by
+  simp only [lrScheduler, hf, kwargsOf] at h
+  cases hm : mk env (if k = "step_lr" then "StepLRConfig" else "ReduceLROnPlateauConfig") kw with
+  | error e => rw [hm] at h; cases h
+  | ok t =>
+    rw [hm] at h
+    simp only [Except.ok.injEq] at h
+    subst h
+    exact ⟨t, getPath_setField hl hk t, fun hnd => mk_reflects hm hnd⟩
+
+/-- **dict-form head** (the entry `headFromDict` selects): `confmaps` keywords are reflected in the
+`…ConfMapsConfig` stored at `<head>.confmaps` (for `bottomup` likewise `pafs`, by the same argument) -/
+theorem head_dict_places {env : Env} {hk : Kvs} {field cls cmCls : String} {sub r : Cfg}
+    (hh : env.cls "HeadConfig" = .node hk) (hf : hasKey field hk = true) (hnb : field ≠ "bottomup")
+    (h : headBuild env (env.cls "HeadConfig") field cls cmCls sub = .ok r) :
+    ∃ kw cmT t, item sub "confmaps" = .ok (.node kw) ∧ getPath [field] r = some t ∧
+      getPath ["confmaps"] t = some cmT ∧ ((keys kw).Nodup → Reflects env cmCls kw cmT) := by
+  unfold headBuild at h
+  cases hi : item sub "confmaps" with
+  | error e => rw [hi] at h; cases h
+  | ok cm =>
+    rw [hi] at h
+    cases cm with
+    | leaf v => simp [kwargsOf] at h
+    | node kw =>
+      simp only [kwargsOf] at h
+      cases hm : mk env cmCls kw with
+      | error e => rw [hm] at h; cases h
+      | ok cmT =>
+        rw [hm] at h
+        simp only [hnb, if_false] at h
+        cases hc : mk env cls [("confmaps", cmT)] with
+        | error e => rw [hc] at h; cases h
+        | ok t =>
+          rw [hc] at h
+          simp only [Except.ok.injEq] at h
+          subst h
+          exact ⟨kw, cmT, t, rfl, getPath_setField hh hf t,
+            mk_get hc (by simp [keys]) (by simp), fun hnd => mk_reflects hm hnd⟩
+
+/-- **nested completeness**: every sub-configuration the trainer / data builders assemble has
+exactly the key set of its schema class (root key sets: `builder_defaults`) -/
+theorem builder_complete_nested (v : Variant) (env : Env) (a : Kvs) (r : Cfg) :
+    (getTrainerConfig env a = .ok r →
+      ∀ pc ∈ [("train_data_loader", "DataLoaderConfig"), ("val_data_loader", "DataLoaderConfig"),
+              ("model_ckpt", "ModelCkptConfig"), ("wandb", "WandBConfig"), ("optimizer", "OptimizerConfig"),
+              ("early_stopping", "EarlyStoppingConfig")],
+        ∃ t dk tk, getPath [pc.1] r = some t ∧ env.cls pc.2 = .node dk ∧ t = .node tk ∧ keys tk = keys dk) ∧
+    (getDataConfig v env a = .ok r →
+      ∃ t dk tk, getPath ["preprocessing"] r = some t ∧ env.cls "PreprocessingConfig" = .node dk ∧
+        t = .node tk ∧ keys tk = keys dk) := by
+  constructor
+  · intro h
+    obtain ⟨tdl, vdl, lrs, ckpt, wb, opt, es, h1, h2, _, h4, h5, h6, h7, hr⟩ := trainer_parts h
+    have hnd : (keys (place a trainerPlacement ++
+        [("train_data_loader", tdl), ("val_data_loader", vdl), ("model_ckpt", ckpt), ("wandb", wb),
+         ("optimizer", opt), ("lr_scheduler", lrs), ("early_stopping", es)])).Nodup := by
+      rw [keys_append, keys_place]; simp only [keys, List.map_cons, List.map_nil]; decide
+    have hsub : ∀ k sub, (k, sub) ∈ [("train_data_loader", tdl), ("val_data_loader", vdl),
+        ("model_ckpt", ckpt), ("wandb", wb), ("optimizer", opt), ("lr_scheduler", lrs),
+        ("early_stopping", es)] → getPath [k] r = some sub :=
+      fun k sub hm => mk_get hr hnd (List.mem_append_right _ hm)
+    intro pc hm
+    simp only [List.mem_cons, List.not_mem_nil, or_false] at hm
+    rcases hm with rfl | rfl | rfl | rfl | rfl | rfl
+    · obtain ⟨dk, tk, e1, e2, e3⟩ := mk_keys h1; exact ⟨tdl, dk, tk, hsub _ _ (by simp), e1, e2, e3⟩
+    · obtain ⟨dk, tk, e1, e2, e3⟩ := mk_keys h2; exact ⟨vdl, dk, tk, hsub _ _ (by simp), e1, e2, e3⟩
+    · obtain ⟨dk, tk, e1, e2, e3⟩ := mk_keys h4; exact ⟨ckpt, dk, tk, hsub _ _ (by simp), e1, e2, e3⟩
+    · obtain ⟨dk, tk, e1, e2, e3⟩ := mk_keys h5; exact ⟨wb, dk, tk, hsub _ _ (by simp), e1, e2, e3⟩
+    · obtain ⟨dk, tk, e1, e2, e3⟩ := mk_keys h6; exact ⟨opt, dk, tk, hsub _ _ (by simp), e1, e2, e3⟩
+    · obtain ⟨dk, tk, e1, e2, e3⟩ := mk_keys h7; exact ⟨es, dk, tk, hsub _ _ (by simp), e1, e2, e3⟩
+  · intro h
+    obtain ⟨pre, aug, hpre, hr⟩ := data_parts h
+    have hnd : (keys (place a dataPlacement ++ [("preprocessing", pre), ("augmentation_config", aug)])).Nodup := by
+      rw [keys_append, keys_place]; simp only [keys, List.map_cons, List.map_nil]; decide
+    obtain ⟨dk, tk, e1, e2, e3⟩ := mk_keys hpre
+    exact ⟨pre, dk, tk, mk_get hr hnd (v := pre) (by simp), e1, e2, e3⟩
+
+/-! ### non-vacuity: an environment (real field names) on which every builder succeeds, and what comes out -/
+
+example : (getTrainerConfig exEnv exTrainerArgs).toBool = true := by decide
+example : (getDataConfig .fixed exEnv exDataArgs).toBool = true := by decide
+example : (getModelConfig exEnv exModelArgs).toBool = true := by decide
+example : isInt 4 (pathOf (getTrainerConfig exEnv exTrainerArgs) ["val_data_loader", "batch_size"]) = true ∧
+    isInt 5 (pathOf (getTrainerConfig exEnv exTrainerArgs) ["lr_scheduler", "step_lr", "step_size"]) = true ∧
+    isFl (mkRat 1 10) (pathOf (getTrainerConfig exEnv exTrainerArgs) ["lr_scheduler", "step_lr", "gamma"]) = true := by
+  decide
+example : isFl 15 (pathOf (getDataConfig .fixed exEnv exDataArgs) ["augmentation_config", "geometric", "rotation"]) = true ∧
+    isFl 1 (pathOf (getDataConfig .fixed exEnv exDataArgs) ["augmentation_config", "geometric", "affine_p"]) = true ∧
+    isFl 0 (pathOf (getDataConfig .fixed exEnv exDataArgs) ["augmentation_config", "geometric", "translate_width"]) = true ∧
+    isFl 1 (pathOf (getDataConfig .fixed exEnv exDataArgs) ["augmentation_config", "intensity", "contrast_p"]) = true := by
+  decide
+example : isInt 8 (pathOf (getModelConfig exEnv exModelArgs) ["backbone_config", "unet", "filters"]) = true ∧
+    isInt 16 (pathOf (getModelConfig exEnv exModelArgs) ["backbone_config", "unet", "max_stride"]) = true ∧
+    isFl 2 (pathOf (getModelConfig exEnv exModelArgs) ["head_configs", "centroid", "confmaps", "sigma"]) = true := by
+  decide
+
+/-! ### open findings of the validator / placement clauses, as facts about the model (= the code as it is) -/
+
+/-- F-C20d: `ConvNextConfig` has no `model_type` validator — an unknown size is accepted
+(`fieldRules "ConvNextConfig" = []`) -/
+theorem convnext_model_type_counterexample :
+    fieldRules "ConvNextConfig" = [] ∧
+    (mk exEnv "ConvNextConfig" [("model_type", cstr "huge")]).toBool = true := by
+  constructor
+  · rfl
+  · decide
+
+/-- F-C20f: the augmentation `scale` interval is not validated at all — text is accepted -/
+theorem geometric_scale_counterexample :
+    (∀ r, ("scale", r) ∉ fieldRules "GeometricConfig") ∧
+    (mk exEnv "GeometricConfig" [("scale", cstr "x")]).toBool = true := by
+  constructor
+  · intro r h; simp [fieldRules] at h
+  · decide
+
+/-- F-C20g: a dict naming two backbone families is neither rejected nor placed as a whole: the
+`convnext` entry is dropped without an error -/
+theorem backbone_dict_drops_second_counterexample :
+    let r := getBackboneConfig exEnv
+      (.node [("convnext", .node [("model_type", cstr "tiny")]), ("unet", .node [])])
+    r.toBool = true ∧ isNullOpt (pathOf r ["convnext"]) = true ∧ isInt 32 (pathOf r ["unet", "filters"]) = true := by
+  decide
 
 end SleapVerif.C20
